@@ -416,7 +416,7 @@ void register_c17(std::vector<Profile>& v)
   p.assumptions = {"API contract respected by construction: a logger is removed only after every thread that used it passed a barrier; no "
                    "same-name re-creation after an asynchronous removal",
                    "premature frees are visible only in the ASan flavour (thorough tier) or as crashes"};
-  p.quick_runs = 16000;
+  p.quick_runs = 28000;
   p.thorough_runs = 400000;
   v.push_back(p);
 }
